@@ -268,6 +268,9 @@ func runC02(c *eng.Ctx) {
 	c.Rule("ATOMIC", "kv.store.CreateFamily{look-up, create and register in one write hold}", func() { createFamilyOnce(c) })
 	// ---- 17. an edit log carries the id of the family that commits it (replay routes records by that id) ------------------------------------
 	c.Rule("PROV", "kv{edit log family id = the committing family}", func() { editLogOwnID(c) })
+	c.Rule("UNION", vsT+".createFamilySnapshot{rollup marks and references are enumerated from their own maps}", func() {
+		snapshotEnumeratesStateMaps(c, c.Fn(vsT+".createFamilySnapshot"))
+	})
 
 	c.Observe("snapshot.Load obtains readers through cache.GetReader without recording them for release — a reference leak (readers stay open), not a safety violation")
 }
